@@ -648,7 +648,7 @@ func (c *Ctx) c12Helpers(f *ircFacts) {
 		for _, cl := range compositeLitsOf(info, f.send.Body(), pathRobust, "Message") {
 			if d := litField(cl, "Data"); d != nil {
 				for _, call := range astx.Calls(d, false) {
-					if fn := astx.Callee(info, call); fn != nil && fn.Name() == "Bytes" && astx.RecvNamed(fn) != nil && astx.RecvNamed(fn).Obj().Name() == "Message" {
+					if fn := astx.Callee(info, call); fn != nil && (fn.Name() == "Bytes" || fn.Name() == "String") && astx.RecvNamed(fn) != nil && astx.RecvNamed(fn).Obj().Name() == "Message" {
 						okData = true
 					}
 				}
